@@ -40,6 +40,13 @@ def execute(case):
             log(ev="handler", k=getattr(exc, "k", -1), truthy=prog["handler"] == "truthy")
             return prog["handler"] == "truthy"
 
+        if case.get("seed", 0) % 2:
+            # the same handler as a callable object that is itself falsy (an empty error collector): still a handler
+            class Collector(list):
+                def __call__(self, exc, _f=handler):
+                    return _f(exc)
+            handler = Collector()
+
         def surf(e):
             out = []
 
